@@ -1,4 +1,4 @@
-prop('C02', families=[dict(name='lu', quick=3200, thorough=20000, extra=[], variants=['asan', 'vendor'], variants_thorough=['asan', 'vendor', 'idx64'], timeout=900)],
+prop('C02', extra_modules=['Rounding'], families=[dict(name='lu', quick=3200, thorough=20000, extra=[], variants=['asan', 'vendor'], variants_thorough=['asan', 'vendor', 'idx64'], timeout=900)],
      level_text='Proof (Lean 4): the column LU with SuperLU\'s threshold pivot policy satisfies Pr*A*Pc = L*U with unit lower L, nonzero diag(U), bounded multipliers and diagonal preference, for all m>=n, all thresholds, all candidate orders, all reuse states (exact arithmetic); the pivot policy is a statement mirror of [sdcz]pivotL compared bit-for-bit on every pivot of every factorization, and on certified rounding-free cases L, U, perm_r must equal the exact model.',
      level_note='Theorems are in exact rational arithmetic; the rounding constants g(n+2) of the componentwise bound are cited from the classical analysis, not proved. Panels, supernodes, pruning and BLAS are tied by correspondence (exact on the rounding-free class, bounded otherwise), not verified.',
      technique='Lean 4 proof (LU identity by induction over columns) + bit-mirror of the pivot policy + exact differential check',
